@@ -83,6 +83,7 @@ type Explorer struct {
 	deadline    time.Time
 	doneSeen    int
 	rng         uint64
+	crossLeft   int
 }
 
 func (x *Explorer) push(p []Decision) {
@@ -160,6 +161,18 @@ func (x *Explorer) discharged(msg string) {
 	x.mu.Unlock()
 }
 
+// takeCrossBudget limits how many unsat assertion verdicts per obligation are re-discharged on the
+// other solvers (each re-discharge replays the whole path script on two fresh processes).
+func (x *Explorer) takeCrossBudget() bool {
+	x.mu.Lock()
+	defer x.mu.Unlock()
+	if x.crossLeft <= 0 {
+		return false
+	}
+	x.crossLeft--
+	return true
+}
+
 func (x *Explorer) crossChecked(kind string) {
 	x.mu.Lock()
 	x.res.CrossChecks[kind]++
@@ -170,6 +183,7 @@ func Explore(P *Program, entry *ssa.Function, cfg Config) *Result {
 	x := &Explorer{P: P, entry: entry, cfg: cfg, seenCex: map[string]bool{}, reverseMaps: cfg.ReverseMaps, crossCheck: cfg.CrossCheck}
 	x.cond = sync.NewCond(&x.mu)
 	x.rng = uint64(cfg.Seed)*2654435761 + 12345
+	x.crossLeft = 400
 	x.res = Result{Harness: entry.Name(), Pkg: entry.Pkg.Pkg.Path(), Params: cfg.Params, Paths: map[string]int{}, Asserts: map[string]int{},
 		Funcs: map[string]int{}, Stubs: map[string]int{}, CrossChecks: map[string]int{}, ForkSites: map[string]int{}}
 	if cfg.TimeLimit > 0 {
